@@ -720,6 +720,42 @@ Definition run_pad4e (c l : nat) (seed : N) (smac dmac : bytes) (ttl : N) (sip d
            else "-" in
   out3 m s "-".
 
+(* ---------------- constants the model hard-codes ---------------- *)
+(* compared with the values extracted from the library's source (harness/cmd/c03/consts.go);
+   named model constants are referenced, literals used inside the model functions are repeated here *)
+Definition show_Nlist (l : list N) : string := join "," (map dec_of_N l).
+Definition model_consts : list (string * string) :=
+  [ ("EthMaxSize", "1522"); ("EthHeaderLen", dn 14); ("EthAddrLen", "6");
+    ("EthType8021AD", dec_of_N ETH_P_8021AD); ("HeaderLen", "20"); ("UDPHeaderLen", "8"); ("IP6HeaderLen", "40");
+    ("ARPLen", "28"); ("ARPOperationRequest", "1"); ("ARPOperationReply", "2");
+    ("ICMP4TypeEchoReply", "0"); ("ICMP4TypeEchoRequest", "8"); ("ICMP6TypeEchoRequest", "128"); ("ICMP6TypeEchoReply", "129");
+    ("DHCP4ServerPort", "67"); ("DHCP4ClientPort", "68"); ("DHCP4BootRequest", "1"); ("DHCP4BootReply", "2");
+    ("DHCP4End", "255"); ("DHCP4Pad", "0");
+    ("DHCP4OptionSubnetMask", dec_of_N (nth 0 reply_params 0)); ("DHCP4OptionRouter", dec_of_N (nth 2 reply_params 0));
+    ("DHCP4OptionStaticRoute", dec_of_N (nth 1 reply_params 0)); ("DHCP4OptionDHCPMessageType", "53");
+    ("questionClassInternet", "1");
+    ("PayloadEther", dec_of_N PayloadEther); ("Payload8023", dec_of_N Payload8023); ("PayloadIP4", dec_of_N PayloadIP4);
+    ("PayloadIP6", dec_of_N PayloadIP6); ("PayloadICMP4", dec_of_N PayloadICMP4); ("PayloadUDP", dec_of_N PayloadUDP);
+    ("PayloadDHCP4", dec_of_N PayloadDHCP4); ("PayloadDHCP6", dec_of_N PayloadDHCP6); ("PayloadDNS", dec_of_N PayloadDNS);
+    ("PayloadMDNS", dec_of_N PayloadMDNS); ("PayloadSSL", dec_of_N PayloadSSL); ("PayloadNTP", dec_of_N PayloadNTP);
+    ("PayloadSSDP", dec_of_N PayloadSSDP); ("PayloadWSDP", dec_of_N PayloadWSDP); ("PayloadNBNS", dec_of_N PayloadNBNS);
+    ("PayloadPlex", dec_of_N PayloadPlex); ("PayloadUbiquiti", dec_of_N PayloadUbiquiti); ("PayloadLLMNR", dec_of_N PayloadLLMNR);
+    ("EncodeDHCP4.mincap", "300"); ("EncodeDHCP4.padto", "300"); ("EncodeDHCP4.cookie", "99,130,83,99");
+    ("AppendOptions.reply", show_Nlist reply_params); ("AppendOptions.fixedlen", "240");
+    ("Ether.AppendPayload.minframe", "60"); ("EncodeEther.mincap", "14");
+    ("NS.option.type", dec_of_N NS_OPT_TYPE); ("NA.option.type", "2");
+    ("EncodeIP4.tos", "192"); ("EncodeIP6.nonext", "59");
+    ("Parse.udp.ports", "53,67,68,123,137,138,443,546,547,1900,3702,5353,5355,10001,32412,32414");
+    ("syscall.ETH_P_IP", dec_of_N ETH_P_IP); ("syscall.ETH_P_IPV6", dec_of_N ETH_P_IPV6); ("syscall.ETH_P_ARP", dec_of_N ETH_P_ARP);
+    ("syscall.ETH_P_8021Q", dec_of_N ETH_P_8021Q); ("syscall.IPPROTO_UDP", dec_of_N IPPROTO_UDP);
+    ("syscall.IPPROTO_ICMP", dec_of_N IPPROTO_ICMP);
+    ("ipv6.ICMPTypeNeighborSolicitation", "135"); ("ipv6.ICMPTypeNeighborAdvertisement", "136") ].
+Fixpoint lookup_const (n : string) (t : list (string * string)) : string :=
+  match t with
+  | [] => "unknown-constant"
+  | (k, v) :: r => if String.eqb k n then v else lookup_const n r
+  end.
+
 (* ---------------- dispatch ---------------- *)
 Definition dispatch (kind : string) (args : list string) : string :=
   if String.eqb kind "ether" then
@@ -771,6 +807,11 @@ Definition dispatch (kind : string) (args : list string) : string :=
     match parse_args "nnnbbnbbnnnnb" args with
     | Some [AN c; AN l; AN s; AB smac; AB dmac; AN ttl; AB sip; AB dip; AN t; AN code; AN id; AN sq; AB data] =>
         run_pad4e (nn c) (nn l) s smac dmac ttl sip dip t code id sq data
+    | _ => BADARGS
+    end
+  else if String.eqb kind "consts" then
+    match args with
+    | [n] => out3 (lookup_const n model_consts) "-" "-"
     | _ => BADARGS
     end
   else if String.eqb kind "ip6" then
